@@ -131,7 +131,7 @@ def tolerant_ok(pid_list=("C01", "C03", "C14")):
     return False
 
 
-def run(ctx, regimes_quick, regimes_thorough, rule, assumptions, extra_bins=(), extra=None):
+def run(ctx, regimes_quick, regimes_thorough, rule, assumptions, extra_bins=(), extra_stream=None):
     pid = ctx.pid
     vlib.prove(ctx, [f"KrillModel.Props.{pid}"])
     private_kmodel(ctx)
@@ -155,8 +155,8 @@ def run(ctx, regimes_quick, regimes_thorough, rule, assumptions, extra_bins=(), 
                 for f in Path(tr).parent.glob(Path(tr).name + "*"):
                     f.unlink(missing_ok=True)
         # 3. further streams of this property
-        if extra is not None:
-            found |= bool(extra(ctx))
+        if extra_stream is not None:
+            found |= bool(extra_stream(ctx))
     else:
         ctx.failed_obligations.append("harness-build")
     vlib.obligations_broken(ctx, found)
